@@ -259,6 +259,29 @@ func (s *Sched) next(from *Thread, fromDone bool) {
 		}
 	}
 	if len(enabled) == 0 {
+		// A harness thread is blocked and nothing can run: before calling it a deadlock give real-time events
+		// (a timer of the time package, a goroutine outside the scheduler) 50 ms to make some pending
+		// operation possible. Only reached when the verdict would otherwise be "deadlock".
+		stuck := false
+		for _, t := range s.threads {
+			if !t.done && !t.Daemon {
+				stuck = true
+			}
+		}
+		for i := 0; stuck && i < 25 && len(enabled) == 0; i++ {
+			time.Sleep(2 * time.Millisecond)
+			if !fromDone && s.enabledOf(from) {
+				enabled = append(enabled, from.ID)
+				curEnabled = true
+			}
+			for _, t := range s.threads {
+				if t != from && s.enabledOf(t) {
+					enabled = append(enabled, t.ID)
+				}
+			}
+		}
+	}
+	if len(enabled) == 0 {
 		// end of execution
 		for _, t := range s.threads {
 			if !t.done {
